@@ -1067,7 +1067,16 @@ func (ex *Exec) next(st *State, fr *Frame, v *ssa.Next) {
 	ex.set(fr, v, &TupleV{E: []Value{okT, kv, vv}})
 	if m != nil {
 		// "map.next": one step of a range over a map (a0 = the map; ar0 = ok, ar1 = key, ar2 = value)
-		ex.event(st, &Event{Callee: "map.next", Args: []Value{m}, Results: []Value{okT, kv, vv}, Instr: v, Fn: fr.Fn, Kind: "mapnext"})
+		// map.next#k: a step of loop#k of the function under contract (the pattern map.next matches every loop; steps
+		// of loops in inlined callees carry the callee's name and match only the bare pattern)
+		nm := "map.next"
+		if k, ok := ex.loopOrdinalOfHeader(fr.Fn, v.Block()); ok {
+			nm = fmt.Sprintf("map.next#%d", k)
+			if len(st.Frames) > 0 && fr != st.Frames[0] {
+				nm += "[in " + shortName(ex.fnName(fr.Fn)) + "]"
+			}
+		}
+		ex.event(st, &Event{Callee: nm, Args: []Value{m}, Results: []Value{okT, kv, vv}, Instr: v, Fn: fr.Fn, Kind: "mapnext"})
 	}
 }
 
